@@ -177,6 +177,8 @@ def toidentifier(value):
             return "neg" + str(-value)
         return str(value)
     elif isinstance(value, float):
+        if math.isnan(value):
+            return "nan"
         try:
             intvalue = int(value)
         except OverflowError:
